@@ -14,35 +14,44 @@ lists of `RunModel.RunSummary.traces` (gate name, `q<index>` for a qubit RESOLVE
 indexing), written by `renderApp` (`Lemmas/RunMeaning.lean`).
 
 `x` is the circuit the emulator is handed (`expandAll ov c`), `FlatT x` what `C16_total`'s chain establishes of it for every
-parsed program (`flatOf_all`), `m` its meaning `Sem.evalStmt [] [] [] x.body` (no let, no macro is left), `Se(specTable m) m` the flat
+parsed program (`flatOf_all`), `m` its meaning `Sem.evalStmt [] [] [] x.body` (no let, no macro is left), `specTable m` the flat
 gate applications of `m` without `prepare_all` / `measure_all`.
 
+On the expanded circuit:
 * **`C03_run_table`** — the gate table of the walker skeleton, rendered, is `(specTable m).map renderApp`: every qubit token is
   the specification's resolved qubit, every number the specification's number (`C03_run_table_rows`: row by row, for the rows that
-  render).
+  render).  **`C03_run_args`** — the same without strings: argument by argument the library's reading IS the specification's value
+  (`ArgAgree`: `resolve_qubit` of a qubit reference gives the specification's fundamental qubit; the `i`-th element of a register
+  argument resolves to the `i`-th qubit of its denotation; a number is that number).
 * **`C03_run_shape`** — the walker skeleton is `semSkel` of `m` (a function of the meaning tree alone: same blocks, loops with the
   same counts, ordinary gates numbered in flat order), and unrolling it and reading the ids in the table gives `m.unroll`, rendered
   (brackets by name).
-* **`C03_run_traces`** — for `execute x = .ok s`: `s.traces = specTraces m`, a function of `m` ALONE: discover the
-  prepare/measure traces of `semSkel m`, take the segment each serialises to (`C03_serialize`), render its gates from
-  `Se(specTable m) m`.
-* **`C03_run_meaning`** — the capstone, for `parseProgram cfg txt = .ok c` and `runCircuit ov c = .ok s`: if the SOURCE program
-  (subcircuit blocks spelled out, `c₁`) has a meaning `m₀` under the overrides, then the traces of the run are `specTraces m` for a
-  tree `m` with `m.norm = m₀`; in particular `m` has the flat and unrolled gate applications of `m₀` (`flat_norm`, `unroll_norm`),
-  so every token of the run is the rendering of a gate application of the source's meaning.
+* **`C03_run_traces`** / **`C03_run_summary`** — for `execute x = .ok s`: `s.traces = specTraces m` and `s = specSummary m`,
+  functions of `m` ALONE: discover the prepare/measure traces of `semSkel m`, take the segment each serialises to
+  (`C03_serialize`), render its gates from `specTable m`; the visits are `Walk.specVisits` of the same skeleton (`C08_run_visits`).
+
+From the source program (`parseProgram cfg txt = .ok c`, `runCircuit ov c = .ok s`):
+* **`C03_run_meaning_raw`**, **`C03_run_meaning_raw_source`**, **`C03_run_text`** — the capstone.  If the program evaluates, under
+  the overrides, to the tree `x₀` (`rawMeaning`: `Sem.meaning` before `Sem.norm`), then `s = specSummary (spl (spellSem P M x₀))`:
+  the tree the run walks is a function of `x₀` alone — every subcircuit block spelled `prepare_all ; … ; measure_all`
+  (`Passes.spellSem`, what `expand_subcircuits` does: `expandSubcircuits_raw`), `fill_in_let` changes nothing
+  (`fillInLet_raw`), the blocks of the expanded macro calls spliced (`ExpandMacros.spl`, what `expand_macros` does:
+  `expandMacros_raw`) — and discovery, serialisation and rendering are computed from that tree alone.  These are
+  `expandSubcircuits_meaning`, `C05_meaning`, `C04_meaning` BEFORE normalisation, obtained from the same lemmas.
+* **`C03_run_meaning`**, `C03_run_meaning_source` — the same through `Sem.meaning` (normalised): the run reports `specSummary m`
+  for a tree `m` with `m.norm = m₀`, hence with the flat / unrolled gate applications of `m₀` (`flat_norm`, `unroll_norm`).
 
 ## What is assumed, and why
 
-* That the specification GIVES the program a meaning (`hm`) is a hypothesis, in all four theorems ("for every valid program").
-  For the expanded circuit alone it cannot be derived from the success of the run: `FlatT` is a typing, and a flat typed circuit can
-  hold `map a q[0:10]` over `register q[4]` (the constructors refuse it, `FlatT` does not know), on which `X a[1]` runs but has no
-  meaning (`Sem.evalReg`: "slice leaves its source").  For a PARSED program the constructors' checks hold again after `fill_in_let`
-  (`C05_revalidate_parsed`), so there the hypothesis should follow from the success of the run; that is `C03_run_meaning_full`
-  below, NOT proved (it needs: `expand_macros` keeps `ValOK`/`ValidChain` of the registers it substitutes, and the converse
-  direction of `C04_meaning`).
+* That the specification GIVES the program a meaning (`hm`) is a hypothesis everywhere ("for every valid program").  For the
+  expanded circuit alone it cannot be derived from the success of the run: `FlatT` is a typing, and a flat typed circuit can hold
+  `map a q[0:10]` over `register q[4]` (the constructors refuse it, `FlatT` does not know), on which `X a[1]` runs but has no
+  meaning (`Sem.evalReg`: "slice leaves its source") — the example `c03NoMeaning` below evaluates exactly this.  For a PARSED
+  program the constructors' checks hold again after `fill_in_let` (`C05_revalidate_parsed`), so there the hypothesis should follow
+  from the success of the run; that is `C03_run_text_full` below, NOT proved.
 * `C03_run_meaning` relates the run to a tree `m` with `m.norm = m₀`, not to `m₀` itself: `Sem.meaning` splices a block nested in a
-  block of the same kind, which changes the ADDRESSES the walkers use, not the gates.  That `specTraces` does not see `Sem.norm`
-  is the second half of `C03_run_meaning_full`, not proved.
+  block of the same kind, which changes the ADDRESSES the walkers use, not the gates (`C03_specTraces_norm_full`, NOT proved;
+  `C03_run_meaning_raw` avoids the question by naming the tree exactly).
 -/
 namespace Jaqal.RunModel
 open Jaqal Jaqal.Builder Jaqal.Sem Jaqal.Walk
@@ -123,6 +132,20 @@ theorem C03_run_table (x : Circuit) (body : List Walk.Stmt) (tbl : List GateRec)
     (htok : tbl.mapM (fun g => gateToken x.natives g.1 g.2.2) = .ok ts) :
     ts = (m.flat.filter notBracket).map renderApp :=
   (skeleton_sem hf hs hm).2.tokens ts htok
+
+/-- **C03 over the run, the table, argument by argument (no strings).** For every row of the table and the gate application at
+its place: as many arguments, and the library's reading of each is the specification's value (`ArgAgree`): a number is that
+number, a qubit reference RESOLVES (`NamedQubit.resolve_qubit`, through the alias chain) to that fundamental qubit, the `i`-th
+element of a register argument resolves to the `i`-th qubit of the register's denotation. -/
+theorem C03_run_args (x : Circuit) (body : List Walk.Stmt) (tbl : List GateRec) (m : Sem) (hf : FlatT x = true)
+    (hs : skeleton x = .ok (body, tbl)) (hm : evalStmt [] [] [] x.body = .ok m) :
+    ∀ (i : Nat) (g : GateRec), tbl[i]? = some g → ∃ app, (specTable m)[i]? = some app ∧ g.1 = app.1 ∧
+      g.2.2.length = app.2.length ∧
+      ∀ (j : Nat) (a : String × Val) (sa : SArg), g.2.2[j]? = some a → app.2[j]? = some sa → ArgAgree a.2 sa := by
+  obtain ⟨_, hrows⟩ := skeleton_sem hf hs hm
+  intro i g hg
+  obtain ⟨app, ha, hr⟩ := hrows.get i g hg
+  exact ⟨app, ha, hr.1, hr.args.1, hr.args.2⟩
 
 /-! ### 2. The shape -/
 
@@ -336,6 +359,52 @@ theorem C03_run_meaning_raw (cfg : Config) (ov : List (String × Num)) (txt : St
   rw [hmac] at e2
   exact ⟨C03_run_traces x _ s hf e2 he, C03_run_summary x _ s hf e2 he, ExpandMacros.norm_spl x₁⟩
 
+open Jaqal.Passes Jaqal.ExpandSubcircuits Jaqal.ExpandMacros in
+/-- `expand_subcircuits` on the meaning tree as evaluated: every subcircuit block spelled `prepare_all ; … ; measure_all`
+(`Passes.spellSem`; `expandSubcircuits_meaning` before normalisation) -/
+theorem expandSubcircuits_raw (ρ : Env) (c c' : Circuit) (it : Val) (b : List Stmt) (x : Sem)
+    (hb : c.body = .block false false it b) (h : expandSubcircuits none none c = .ok c') (hm : rawMeaning ρ c = .ok x) :
+    rawMeaning ρ c' = .ok (spellSem (.gate "prepare_all" []) (.gate "measure_all" []) x) := by
+  have hnb := noBoundingMacro_of_ok h
+  have hbody := C09_shape_body hb h
+  have hmac := (C09_shape h).1
+  have hpn := chooseBounding_none_name "prepare_all" c
+  have hmn := chooseBounding_none_name "measure_all" c
+  unfold rawMeaning at hm ⊢
+  have hrel0 : MdRel (.gate (chooseBounding none "prepare_all" c).name []) (.gate (chooseBounding none "measure_all" c).name [])
+      ([] : MacroDen) [] := fun n => ⟨fun _ => rfl, fun ar f h => by cases h⟩
+  obtain ⟨hrel, hp, hmm⟩ := mdRel_fold ρ _ _ c.macros [] [] hrel0 rfl rfl (by rw [hpn, hmn]; exact hnb)
+  have key := evalStmt_spell ρ _ _ _ _ hrel hp hmm c.body [] x hm
+  rw [hbody, hmac, denoteMacros_eq]
+  simp only [prepStmt, measStmt]
+  rw [key, hpn, hmn]
+
+/-- **… and from the program AS WRITTEN** (subcircuit blocks not spelled out): if it evaluates, under the overrides, to the tree
+`x₀`, the run reports `specSummary` of `x₀` with every subcircuit block spelled `prepare_all ; … ; measure_all` and the blocks of
+the expanded macro calls spliced — a function of `x₀` alone. -/
+theorem C03_run_meaning_raw_source (cfg : Config) (ov : List (String × Num)) (txt : String) (c : Circuit) (s : RunSummary)
+    (x₀ : Sem) (hp : Pipeline.parseProgram cfg txt = .ok c) (hm : rawMeaning (FillIn.normOv ov) c = .ok x₀)
+    (hr : runCircuit ov c = .ok s) :
+    specSummary (ExpandMacros.spl (Passes.spellSem (.gate "prepare_all" []) (.gate "measure_all" []) x₀)) = some s := by
+  have hr' := hr
+  unfold runCircuit expandAll at hr'
+  obtain ⟨x, hx, _⟩ := bind_ok hr'
+  obtain ⟨c₁, h1, _⟩ := bind_ok hx
+  obtain ⟨b, hb⟩ := parseProgram_body hp
+  have hm1 := expandSubcircuits_raw (FillIn.normOv ov) c c₁ (.int 1) b x₀ hb h1 hm
+  exact (C03_run_meaning_raw cfg ov txt c c₁ s _ hp h1 hm1 hr).2.1
+
+/-- **C03 over the run, from the text.** Whatever `run_jaqal_circuit(parse_jaqal_string(text))` reports is `specSummary` of the
+tree the program as written evaluates to (under the overrides), subcircuit blocks spelled out and expanded macro bodies spliced —
+whenever the specification gives the program a meaning. -/
+theorem C03_run_text (cfg : Config) (ov : List (String × Num)) (txt : String) (s : RunSummary)
+    (h : runModel cfg ov txt = .ok s) :
+    ∃ c, Pipeline.parseProgram cfg txt = .ok c ∧ ∀ x₀, rawMeaning (FillIn.normOv ov) c = .ok x₀ →
+      specSummary (ExpandMacros.spl (Passes.spellSem (.gate "prepare_all" []) (.gate "measure_all" []) x₀)) = some s := by
+  unfold runModel at h
+  obtain ⟨c, hc, hr⟩ := bind_ok h
+  exact ⟨c, hc, fun x₀ hx => C03_run_meaning_raw_source cfg ov txt c s x₀ hc hx hr⟩
+
 /-- the same from the program AS WRITTEN (subcircuit blocks not spelled out): if it has the meaning `s₀` under the overrides, the
 run reports `specTraces m` for a tree `m` that is, up to same-kind nesting, `s₀` with every subcircuit block spelled
 `prepare_all ; … ; measure_all` (`Passes.spellN`, `expandSubcircuits_meaning`) -/
@@ -352,12 +421,20 @@ theorem C03_run_meaning_source (cfg : Config) (ov : List (String × Num)) (txt :
   obtain ⟨m, h2, _, h3, _, h4, h5⟩ := C03_run_meaning cfg ov txt c c₁ s _ hp h1 hm1 hr
   exact ⟨m, h2, h3, h4, h5⟩
 
-/-- The full statement, NOT proved: (a) the meaning of the source exists whenever the run succeeds, (b) the traces are
-`specTraces` of the source's (normalised) meaning itself.  See the header for what is missing. -/
-def C03_run_meaning_full : Prop :=
-  ∀ (cfg : Config) (ov : List (String × Num)) (txt : String) (c c₁ : Circuit) (s : RunSummary),
-    Pipeline.parseProgram cfg txt = .ok c → ExpandSubcircuits.expandSubcircuits none none c = .ok c₁ →
-    runCircuit ov c = .ok s → ∃ m₀, meaning (FillIn.normOv ov) c₁ = .ok m₀ ∧ specTraces m₀ = some s.traces
+/-- The full statement, NOT proved: `C03_run_text` without the hypothesis that the specification gives the program a meaning —
+i.e. a parsed program that RUNS has a meaning.  (The constructors' checks, which hold again after `fill_in_let`,
+`C05_revalidate_parsed`, should give it; it needs `ValOK` / `ValidChain` carried through `expand_macros` and the converse direction
+of `expStmt_sem`.  It is false for hand-built circuits: `c03NoMeaning` below.)  The non-vacuity examples evaluate the hypothesis
+on concrete programs. -/
+def C03_run_text_full : Prop :=
+  ∀ (cfg : Config) (ov : List (String × Num)) (txt : String) (s : RunSummary), runModel cfg ov txt = .ok s →
+    ∃ c x₀, Pipeline.parseProgram cfg txt = .ok c ∧ rawMeaning (FillIn.normOv ov) c = .ok x₀ ∧
+      specSummary (ExpandMacros.spl (Passes.spellSem (.gate "prepare_all" []) (.gate "measure_all" []) x₀)) = some s
+
+/-- … and the second thing NOT proved: that `specTraces` does not see `Sem.norm` (the walkers' ADDRESSES change when a block nested
+in a block of the same kind is spliced, the gates do not), so that `C03_run_meaning` could speak of `specTraces m₀` for the
+normalised meaning `m₀` of the source itself.  (`C03_run_meaning_raw` makes this unnecessary: it names the tree exactly.) -/
+def C03_specTraces_norm_full : Prop := ∀ m : Sem, specTraces m.norm = specTraces m
 
 /-! ### Non-vacuity -/
 section Examples
@@ -444,6 +521,7 @@ end Jaqal.RunModel
 
 #print axioms Jaqal.RunModel.C03_run_table_rows
 #print axioms Jaqal.RunModel.C03_run_table
+#print axioms Jaqal.RunModel.C03_run_args
 #print axioms Jaqal.RunModel.C03_run_shape
 #print axioms Jaqal.RunModel.C03_run_traces_seg
 #print axioms Jaqal.RunModel.C03_run_traces
@@ -451,3 +529,5 @@ end Jaqal.RunModel
 #print axioms Jaqal.RunModel.C03_run_meaning
 #print axioms Jaqal.RunModel.C03_run_meaning_source
 #print axioms Jaqal.RunModel.C03_run_meaning_raw
+#print axioms Jaqal.RunModel.C03_run_meaning_raw_source
+#print axioms Jaqal.RunModel.C03_run_text
